@@ -51,8 +51,8 @@ def generate(repo):
     delims = [char_literal(x) for x in re.findall(r"(?:U|u|L)?'(?:\\.|[^'\\])'", dl)]
     if re.sub(r"(?:U|u|L)?'(?:\\.|[^'\\])'", "", dl).replace(",", "").strip() != "":
         raise ValueError("default delimiter list is not a list of character literals: %r" % dl)
-    getopt = need(r"getopt\s*\(\s*argc\s*,\s*argv\s*,\s*\"([^\"]*)\"\s*\)", src, "getopt string").group(1)
-    sflag = need(r"case\s+'s'\s*:\s*options\.keep_delimiters_in_lines\s*=\s*(true|false)\s*;", src, "-s handler").group(1)
+    getopt = need(r"getopt\s*\(\s*\w+\s*,\s*\w+\s*,\s*\"([^\"]*)\"\s*\)", src, "getopt string").group(1)
+    sflag = need(r"case\s+'s'\s*:\s*\w+\.keep_delimiters_in_lines\s*=\s*(true|false)\s*;", src, "-s handler").group(1)
 
     # how the feeder and the collector read lines (FilePiece's strip_cr argument)
     fp = strip_comments(open(os.path.join(repo, "util", "file_piece.hh")).read())
@@ -71,13 +71,13 @@ def generate(repo):
             raise ValueError("%s: strip_cr argument %r is not a literal" % (what, a[1]))
         return a[1]
 
-    m = re.search(r"for\s*\(\s*util::StringPiece\s+\w+\s*:\s*in\s*\)", src)
+    m = re.search(r"for\s*\(\s*util::StringPiece\s+\w+\s*:\s*\w+\s*\)", src)
     if m:
         feeder_cr = dflt_rle      # LineIterator calls ReadLineOrEOF(line_, delim_)
     else:
-        m = need(r"in\.ReadLineOrEOF\s*\(\s*\w+\s*((?:,[^)]*)?)\)", src, "feeder line loop")
+        m = need(r"\w+\.ReadLineOrEOF\s*\(\s*\w+\s*((?:,[^)]*)?)\)", src, "feeder line loop")
         feeder_cr = strip_arg(m.group(1).lstrip(","), dflt_rle, "feeder ReadLineOrEOF")
-    m = need(r"child_out\.ReadLine\s*\(([^)]*)\)", src, "collector ReadLine")
+    m = need(r"\w+\.ReadLine\s*\(([^)]*)\)", src, "collector ReadLine")
     collector_cr = strip_arg(m.group(1), dflt_rl, "collector ReadLine")
 
     u8 = strip_comments(open(os.path.join(repo, "util", "utf8.hh")).read())
